@@ -72,6 +72,15 @@ int main() {
     Eigen::MatrixXd B = make(6, 2); s.compute(B, Eigen::Lower, 0.3); Eigen::VectorXd b = Eigen::VectorXd::LinSpaced(6, 1, 2); Eigen::VectorXd x = s.solve(b);
     BKLDLT<double> f(B, Eigen::Lower, 0.3); Eigen::VectorXd xf = f.solve(b);
     if (s.info() == CompInfo::Successful && (x - xf).norm() > 1e-12 * (1 + xf.norm())) fail("a reused BKLDLT object solves differently from a fresh one", 6, 2); }
+  // reused object, SAME dimension: a factorization with 2x2 pivots first, then every other pattern; must equal a fresh object
+  for (int n = 2; n <= 8; n++) for (int p1 = 0; p1 < 4; p1++) for (int p2 = 0; p2 < 4; p2++) {
+    Eigen::MatrixXd A1 = make(n, p1), A2 = make(n, p2); BKLDLT<double> s; s.compute(A1, Eigen::Lower, 0.1); s.compute(A2, Eigen::Lower, 0.3);
+    BKLDLT<double> f(A2, Eigen::Lower, 0.3);
+    if (s.info() != f.info()) { fail("same-size reuse: status differs from a fresh object", n, p1 * 10 + p2); continue; }
+    if (f.info() != CompInfo::Successful) continue;
+    Eigen::VectorXd b = Eigen::VectorXd::LinSpaced(n, 1, 2), x = s.solve(b), xf = f.solve(b);
+    if (!((x - xf).norm() <= 1e-12 * (1 + xf.norm()))) fail("same-size reuse: a reused BKLDLT object solves differently from a fresh one (stale pivot record)", n, p1 * 10 + p2);
+  }
   for (int n = 1; n <= 9; n++) for (int pat = 0; pat < 4; pat++) for (int sh = 0; sh < 3; sh++) {
     Eigen::MatrixXd A = make(n, pat); const double sigma = sh == 0 ? 0.0 : (sh == 1 ? 0.37 : A(0, 0));
     Eigen::MatrixXd L = A.triangularView<Eigen::Lower>(), U = A.triangularView<Eigen::Upper>();
